@@ -4,6 +4,7 @@ import json
 import os
 
 import vlib
+import layout
 
 Q = "quick"
 
@@ -191,6 +192,36 @@ def c12(run):
         "allocator refusing the j-th request: result class, refused layout, unchanged state and ledger validated")
 
 
+def c17(run):
+    quick = run.tier == Q
+    run.assumptions += COMMON_ASSUMPTIONS + ["Apalache 0.58 / Z3 decide the 64-bit obligations; 32-bit usize is covered by the scaled TLC models only"]
+    run.model("MC_layout_10.cfg", "MC_layout.tla", workers=4, timeout=300)
+    run.model("MC_layout_9g.cfg", "MC_layout.tla", workers=4, timeout=300)
+    if not quick:
+        run.model("MC_layout_13.cfg", "MC_layout.tla", workers=8, timeout=900)
+        run.model("MC_layout_12g.cfg", "MC_layout.tla", workers=8, timeout=900)
+    ob, done = 0, 0
+    for W in ((16,) if quick else (16, 8)):
+        for r in layout.symbolic_checks(run, W, 24 if quick else 200):
+            ob += 1
+            vlib.log("  apalache %-10s W=%d %s in %.1fs" % (r["name"], W, "NoError" if r["ok"] else "FAILED", r["wall_s"]))
+            if r["ok"]:
+                done += 1
+            elif r.get("counterexample"):
+                run.violation("HbLayout violates C17 at 64 bits (%s)" % r["name"], {"kind": "apalache", "name": r["name"], "cex": r["counterexample"]},
+                              signature="apalache:" + r["name"])
+            else:
+                run.tool_error("Apalache failed: %s" % r.get("out"))
+    run.extra["symbolic_obligations_64bit"] = {"checked": ob, "discharged": done}
+    layout.validate_recorded(run, "sse2", 22 if quick else 32, 64 if quick else 4096, 80 if quick else 0, release=not quick)
+    if not quick:
+        layout.validate_recorded(run, "generic", 26, 512, 0, release=True)
+    else:
+        layout.validate_recorded(run, "generic", 16, 16, 30)
+    return run.finish(rule="spec arithmetic: exhaustive at word sizes 9-13 bits (TLC), symbolic at 64 bits (Apalache); real functions: run-length "
+                           "intervals of an exhaustive scan + boundary windows + layout samples validated against the same module")
+
+
 def c13(run):
     return generic_check(run, [("MC_map_w2churn.cfg", "MC_map.tla", {"timeout": 300})], [],
         [("churn", ["map:kv16:collide:12:3000:churn", "map:kv16:zero:10:2000:churn"]),
@@ -231,6 +262,7 @@ CHECKS = {
     "C11": c11,
     "C12": c12,
     "C13": c13,
+    "C17": c17,
     "C14": c14,
     "C15": c15,
 }
